@@ -282,6 +282,10 @@ def _walk_cell(body, prov, pv, vv, pdu, n=None, inside=None, val=None):
             return n
         if inside is not None and t[0] == "call" and (t[1] or "").endswith("GetIter::set_next_oid"):
             return 1 if inside else 0
+        # an iterator over an empty varbind list yields nothing: the first next() is None (discriminant 0)
+        if n == 0 and t[0] == "discr" and t[1][0] == "call" and (t[1][1] or "").endswith("Iterator>::next") and \
+                flow.mentions(t[1], lambda s: s[0] == "f" and s[2] == "vars"):
+            return 0
         if val is not None and is_value_discr(t):
             return vv[val]
         # iter.ok_or_else(..)? : the iterator is present
